@@ -49,7 +49,7 @@ type csgObs struct {
 type slowUnion2 struct{ u *sdf.UnionSDF2 }
 
 func (s slowUnion2) Evaluate(p v2.Vec) float64 { return s.u.EvaluateSlow(p) }
-func (s slowUnion2) BoundingBox() sdf.Box2   { return s.u.BoundingBox() }
+func (s slowUnion2) BoundingBox() sdf.Box2     { return s.u.BoundingBox() }
 
 var csgSlowUnion bool
 
